@@ -563,6 +563,36 @@ Definition ok_pages (ds : list mdi) (cps : list code_page) (before after : pmap)
   forallb (fun pg => if touched ds cps pg then perm_eqb (after pg) P_RX
                      else perm_eqb (after pg) (before pg)) pages.
 
+(* ------------------------------------------------------------------ executing a function entry *)
+(* A three-instruction machine, just enough to say what a patched entry does when it is executed:
+   the 5-byte NOP forms, `call rel32`, the trampoline's `jmp *1(%rip)`, and __fentry__ as an oracle
+   step that returns to the address on top of the stack with everything else preserved (that it does so
+   is property C01's subject).  Stack slots are 8-byte words addressed by their address. *)
+Record mstate := { st_rip : Z; st_rsp : Z; st_stk : Z -> Z }.
+Inductive insn := INop5 | ICall (target : Z) | IJmpInd (target : Z) | IOther.
+Definition decode (m : mem) (rip : Z) : insn :=
+  let a := Z.to_N rip in
+  if is_nop_sig (rd m a 5) then INop5
+  else match call_target a (rd m a 5) with
+       | Some t => ICall t
+       | None => if bytes_eqb (rd m a 8) trampoline_head then IJmpInd (le_val (rd m (a + 8) 8)) else IOther
+       end.
+Definition step (m : mem) (fentry : Z) (s : mstate) : option mstate :=
+  if (st_rip s =? fentry)%Z then
+    Some {| st_rip := st_stk s (st_rsp s); st_rsp := (st_rsp s + 8)%Z; st_stk := st_stk s |}
+  else match decode m (st_rip s) with
+       | INop5 => Some {| st_rip := (st_rip s + 5)%Z; st_rsp := st_rsp s; st_stk := st_stk s |}
+       | ICall t => Some {| st_rip := t; st_rsp := (st_rsp s - 8)%Z;
+                            st_stk := fun a => if (a =? st_rsp s - 8)%Z then (st_rip s + 5)%Z else st_stk s a |}
+       | IJmpInd t => Some {| st_rip := t; st_rsp := st_rsp s; st_stk := st_stk s |}
+       | IOther => None
+       end.
+Fixpoint steps (n : nat) (m : mem) (fentry : Z) (s : mstate) : option mstate :=
+  match n with
+  | O => Some s
+  | S n' => match step m fentry s with Some s' => steps n' m fentry s' | None => None end
+  end.
+
 (* ------------------------------------------------------------------ correspondence cases *)
 Fixpoint assoc1 (tbl : list (bytes * bool)) (p : bytes) : bool :=
   match tbl with
@@ -706,6 +736,24 @@ Definition u_layout (u : ucase) : bool :=
 (* the property on the implementation's outputs *)
 (* a module whose trampoline cannot be set up (the page behind the text is needed and occupied) cannot be
    patched: it must be left byte-for-byte untouched, its page permissions unchanged, the process running *)
+(* executing every entry the implementation turned into a call, on the implementation's own bytes
+   (window after the update + the 16 trampoline bytes it wrote, whose target was checked to be
+   __fentry__): call, jmp, return must come back to entry+5 with the stack pointer unchanged *)
+Definition FENTRY_ADDR : Z := 140737488355328.
+Definition u_exec_ok (u : ucase) : bool :=
+  let c := u_cfg u (i_tramp u) in
+  let m0 := mem_of (u_wbase u) (u_before u) in
+  let mem_after := wr (mem_of (u_wbase u) (i_after u)) (Z.to_N (i_tramp u)) (i_thead u ++ le_bytes 8 FENTRY_ADDR) in
+  forallb (fun s => match spec_change (u_oracle u) c m0 s with
+                    | Some (e, 232 :: _) =>
+                        match steps 3 mem_after FENTRY_ADDR
+                                    {| st_rip := Z.of_N e; st_rsp := 8000000; st_stk := fun _ => 0%Z |} with
+                        | Some s3 => (st_rip s3 =? Z.of_N e + 5)%Z && (st_rsp s3 =? 8000000)%Z
+                        | None => false
+                        end
+                    | _ => true
+                    end) (visited c (u_syms u) (u_targets u)).
+
 Definition u_ok_unpatchable (u : ucase) : bool :=
   negb (i_fatal u) && (i_canary u =? 0) && bytes_eqb (u_before u) (i_after u)
   && perm_list_eqb (u_perms u) (i_perm2 u).
@@ -723,6 +771,7 @@ Definition u_ok_patchable (u : ucase) : bool :=
   && in_range (u_text_addr u) (i_tsize u) (page_of (i_tramp u))
   && in_range (u_text_addr u) (i_tsize u) (page_of (i_tramp u + 15))
   && ok_update (u_oracle u) (u_cfg u (i_tramp u)) (u_syms u) (u_targets u) (u_wbase u) (u_before u) (i_after u)
+  && u_exec_ok u
   && ok_pages [d] [] (pm_of (u_perms u)) (pm_of (i_perm2 u)) (map Z.of_nat (seq 0 np))
   && forallb (perm_eqb P_RX) (i_cp_after u).
 Definition u_ok (u : ucase) : bool :=
